@@ -549,6 +549,11 @@ def rule_e(ctx):
                                                     isinstance(a, ast.Name) and a.id == var for a in y.args) and \
                                                     'cancel' in ast.unparse(y.func):
                                                 in_finally = True
+                                            # <task>.cancel(): cancelled without being waited for
+                                            if isinstance(y, ast.Call) and isinstance(y.func, ast.Attribute) and \
+                                                    y.func.attr == 'cancel' and isinstance(y.func.value, ast.Name) and \
+                                                    y.func.value.id == var:
+                                                in_finally = True
                             rep.add('C11.e', '%s / local task %s cancelled in finally' % (f.short, var),
                                     (f.file, n.lineno), in_finally,
                                     'cancelled in a finally block of the function that spawned it' if in_finally else
@@ -1025,5 +1030,58 @@ def rule_termination_event(ctx):
     r(ctx, 'C11.k')
 
 
+
+def rule_no_wait_cycle(ctx):
+    """C11.n  close() may be called by application code at any moment - from any call-back the library awaits.  close()
+    waits for the receiver (and the sender) to end.  A task whose end the receiver or the sender itself waits for
+    (`await cancel_if_task_exists(task)` / `await task` on its way out) must therefore not be one that awaits an
+    application call-back: that call-back may call close(), which waits for the receiver, which waits for the task
+    the call-back runs in - neither ever finishes, no request is failed and on_close is never delivered.  Such a task
+    is cancelled without being waited for (and has to notice by itself that its connection is over)."""
+    rep = ctx.report
+    slots = ctx.slots
+    n = 0
+    for cls in _socket_classes(ctx):
+        for k in cls.mro():
+            if not k.is_subclass_of(slots.RSocketBase):
+                continue
+            for f in k.methods.values():
+                spawned = {}
+                for x in walk_local(f.node):
+                    if isinstance(x, ast.Assign) and len(x.targets) == 1 and isinstance(x.targets[0], ast.Name) and \
+                            isinstance(x.value, ast.Call):
+                        fn = x.value.func
+                        name = fn.attr if isinstance(fn, ast.Attribute) else (fn.id if isinstance(fn, ast.Name) else '')
+                        if name in ('create_task', '_start_task_if_not_closing', 'ensure_future') and x.value.args:
+                            a = x.value.args[0]
+                            if isinstance(a, ast.Call):
+                                a = a.func
+                            if isinstance(a, ast.Attribute) and isinstance(a.value, ast.Name) and a.value.id == 'self':
+                                spawned[x.targets[0].id] = a.attr
+                for var, coro in spawned.items():
+                    g = cls.lookup(coro)
+                    if g is None:
+                        continue
+                    n += 1
+                    waited = [y for y in walk_local(f.node) if isinstance(y, ast.Await) and (
+                        isinstance(y.value, ast.Name) and y.value.id == var or
+                        isinstance(y.value, ast.Call) and any(isinstance(a, ast.Name) and a.id == var
+                                                              for a in y.value.args))]
+                    callouts = [y for y in walk_local(g.node) if isinstance(y, ast.Await) and
+                                isinstance(y.value, ast.Call) and isinstance(y.value.func, ast.Attribute) and
+                                isinstance(y.value.func.value, ast.Attribute) and
+                                y.value.func.value.attr in ('_handler', 'handler')]
+                    bad = bool(waited) and bool(callouts)
+                    rep.add('C11.n', '%s.%s / does not wait for a task that awaits application code (%s)' % (
+                        cls.name, f.name, coro), f, not bad,
+                        'the task running %s is %s' % (coro, 'cancelled without being waited for' if not waited else
+                                                       'waited for; it awaits no application call-back') if not bad else
+                        '%s waits for the task running %s, which awaits self._handler.%s(): a call-back that calls close() '
+                        'waits for this function\'s task while this function waits for the call-back\'s task' % (
+                            f.name, coro, callouts[0].value.func.attr))
+    rep.require('C11.n', 'tasks spawned into a local by a socket method', n, 1)
+
+
+
 RULES = [('C11.a', rule_a), ('C11.b', rule_b), ('C11.b', rule_b2), ('C11.c', rule_c), ('C11.d', rule_d), ('C11.e', rule_e),
-         ('C11.f', rule_f), ('C11.g', rule_g), ('C11.h', rule_h), ('C11.i', rule_i), ('C11.f', rule_wrap), ('C11.g+C11.e', rule_plumbing), ('C11.j', rule_group_close), ('C11.k', rule_k), ('C11.l', rule_l), ('C11.m', rule_m), ('C11.k', rule_termination_event)]
+         ('C11.f', rule_f), ('C11.g', rule_g), ('C11.h', rule_h), ('C11.i', rule_i), ('C11.f', rule_wrap), ('C11.g+C11.e', rule_plumbing), ('C11.j', rule_group_close), ('C11.k', rule_k), ('C11.l', rule_l), ('C11.m', rule_m), ('C11.k', rule_termination_event), ('C11.n', rule_no_wait_cycle)]
